@@ -43,7 +43,7 @@ MIN_REACH = {
     "harvests_with_chunks_named_at_the_call": {"quick": 5, "thorough": 100},
     "memory_persisted_after_unsynced_steps": {"quick": 6, "thorough": 100},
     "synced_harvests_right_after_unsynced_ones": {"quick": 6, "thorough": 100},
-    "failed_saves_while_memory_held_unsynced_data": {"quick": 2, "thorough": 40},
+    "failed_saves_while_memory_held_unsynced_data": {"quick": 1, "thorough": 40},
     "unsynced_steps_before_first_save": {"quick": 25, "thorough": 400},
 }
 TIME_BUDGET = {"quick": 400, "thorough": 3400}
